@@ -491,6 +491,29 @@ func ifBodySeq(rel, fn, condPart string, pats []string) bool {
 	return found
 }
 
+// topStmtSeq: among the top-level statements of fn, statements with the texts pats[0], pats[1], … occur in this
+// order (a pattern ending in "…" matches a statement that starts with the text before it).
+func topStmtSeq(rel, fn string, pats []string) bool {
+	fd := findFunc(rel, fn)
+	if fd == nil {
+		fatal("function %s not found in %s", fn, rel)
+	}
+	k := 0
+	for _, st := range fd.Body.List {
+		if k == len(pats) {
+			break
+		}
+		var buf bytes.Buffer
+		printer.Fprint(&buf, token.NewFileSet(), st)
+		t := strings.TrimSpace(buf.String())
+		pat := pats[k]
+		if t == pat || (strings.HasSuffix(pat, "…") && strings.HasPrefix(t, strings.TrimSuffix(pat, "…"))) {
+			k++
+		}
+	}
+	return k == len(pats)
+}
+
 // lockCovers: in fn's body (top-level statements), mu is locked by a statement `<mu>.Lock()` or `<mu>.RLock()`
 // and every top-level statement that mentions one of the shared names lies after it and before the matching
 // explicit unlock — or anywhere after it when the statement following the lock is `defer <mu>.(R)Unlock()`.
@@ -1425,6 +1448,19 @@ func main() {
 			!ifBodyHas("leveldb/cache/cache.go", "Node.unRefExternal", "n.r.closed", "n.callFinalizer()") &&
 			countStmts("leveldb/cache/cache.go", "Node.unRefExternal", "n.callFinalizer()") == 1,
 		"in the `if n.r.closed` branch of `Node.unRefExternal` the only call of `n.callFinalizer()` is inside `if atomic.LoadInt32(&n.ref) == 0 { … }`")
+
+	{
+		unref := funcText("leveldb/cache/cache.go", "Node.unRefExternal")
+		closeT := funcText("leveldb/cache/cache.go", "Cache.Close")
+		o.boolean("cacheUnrefOwnLock",
+			strings.Count(unref, "n.r.unrefMu.RLock()") == 1 && strings.Count(unref, "n.r.unrefMu.RUnlock()") == 1 &&
+				!strings.Contains(unref, "n.r.mu.") &&
+				textBefore("leveldb/cache/cache.go", "Node.unRefExternal", "n.r.unrefMu.RLock()", "n.r.closed") &&
+				topStmtSeq("leveldb/cache/cache.go", "Cache.Close",
+					[]string{"r.mu.Lock()", "r.unrefMu.Lock()", "if !r.closed {…", "r.unrefMu.Unlock()", "r.mu.Unlock()"}) &&
+				strings.Count(closeT, "r.mu.Lock()") == 1 && strings.Count(closeT, "r.unrefMu.Lock()") == 1,
+			"`Node.unRefExternal` read-locks `n.r.unrefMu` (and never `n.r.mu`) around its closed-check, and `Cache.Close` runs `if !r.closed {…}` between `r.mu.Lock(); r.unrefMu.Lock()` and `r.unrefMu.Unlock(); r.mu.Unlock()` (lock order mu, then unrefMu)")
+	}
 
 	// order facts behind the configuration of the interleaving model (Model/Conc.lean, Cfg)
 	o.boolean("ordFlushCommitBeforeDrop", topStmtBefore("leveldb/db_compaction.go", "DB.memCompaction", `db.compactionCommit("memdb", rec)`, "db.dropFrozenMem()"),
